@@ -1,5 +1,5 @@
 """C01 tables, re-extracted from the live interpreter / live reamber modules on every run:
-the binary64 divisors 512/keys, the exhaustive x -> column and column -> x maps of OsuNoteMeta for
+the exhaustive x -> column and column -> x maps of OsuNoteMeta for
 keys 1..18, Python's whitespace set (str.strip / int() / float()), OsuSampleSet names."""
 from fractions import Fraction
 from .. import coqfmt as F
@@ -11,7 +11,6 @@ def generate():
     from reamber.osu.OsuNoteMeta import OsuNoteMeta
     from reamber.osu.OsuSampleSet import OsuSampleSet
     import sys
-    colw = [Fraction(512 / k) for k in range(1, 19)]
     xcol = []
     for k in range(1, 19):
         row = []
@@ -42,7 +41,6 @@ def generate():
     return [
         f"Definition x_lo : Z := ({X_LO})%Z.",
         f"Definition x_hi : Z := {X_HI}%Z.",
-        "Definition colw : list Q := " + F.lst([F.q(x) for x in colw]) + ".",
         "Definition xcol : list (list Z) := [" + ";\n".join(zl(r) for r in xcol) + "].",
         "Definition colx : list (list Z) := [" + "; ".join(zl(r) for r in colx) + "].",
         "Definition py_space : list Z := " + zl(spaces) + ".",
